@@ -312,7 +312,10 @@ func (hostile) Execute(scAny any, keepLog bool) *core.Outcome {
 		out.Violate("C03", "end-not-sticky", cfgSig, "after ErrNoMorePackets a later call returned something else (input %d bytes, size option %d)", len(sc.Input), sc.Size)
 	}
 	if hr.noProg >= 0 && hr.ended {
-		out.Violate("C03", "error-without-progress", cfgSig, "call %d returned an error without consuming any input (input %d bytes, size option %d, %s reader)", hr.noProg, len(sc.Input), sc.Size, sc.Reader.Kind)
+		// An error returned without reading is not a violation by itself (the end-of-stream drain
+		// may report one per pending PID): the property bounds the number of calls, which the
+		// no-termination class judges.
+		out.Probe("error-without-reading")
 	}
 	if len(sc.Input) > 0 && (hr.nData > 0 || hr.nErr > 0) {
 		out.FP(fmt.Sprintf("%s/%d/%s/%s/%v%v/d%s/e%s", sc.Origin, sc.Size, sc.Reader.Kind, sc.API, sc.Skipper, sc.Parser, bucket(hr.nData), bucket(hr.nErr)))
